@@ -9,7 +9,7 @@ use crate::model::num::{self, Expect};
 use crate::props::common::*;
 use crate::props::PropDef;
 use crate::report::Report;
-use crate::rng::{hash_str, Rng};
+use crate::rng::{hash2, hash_str, Rng};
 use crate::run::{CaseSet, Ctx};
 use lexpr::Value;
 use serde_json::json;
@@ -300,6 +300,46 @@ pub fn sets(ctx: &Ctx) -> Vec<CaseSet> {
                             check(rep, &t, nofast, "decimal-boundary");
                         }
                     }
+                }
+            }
+        }),
+    ));
+
+    // 1c. literals of 70 KB - 1 MB whose huge written exponent is compensated by the digit
+    // string, so that the value is small and known (12.5): the exponent arithmetic must
+    // keep every digit of the exponent
+    out.push(CaseSet::new(
+        "huge-compensated-literals",
+        ctx.size(8, 32),
+        Box::new(move |rep, _rng, case| {
+            let ns = [70_000usize, 655_360, 700_001, 1_000_000, 99_999, 65_536, 131_072, 250_000];
+            let n = ns[(case as usize) % ns.len()];
+            let neg = (case / 8) % 2 == 1;
+            let form = (case / 16) % 2;
+            let lit = if form == 0 {
+                format!("{}125{}e-{}", if neg { "-" } else { "" }, "0".repeat(n), n + 1)
+            } else {
+                format!("{}0.{}125e{}", if neg { "-" } else { "" }, "0".repeat(n), n + 2)
+            };
+            let want = if neg { -12.5 } else { 12.5 };
+            rep.max("max_literal_bytes", lit.len() as u64);
+            for (src, r) in [("str", lexpr::from_str(&lit)), ("reader", lexpr::from_reader(lit.as_bytes()))] {
+                rep.eval();
+                rep.distinct(hash2(case, hash_str(src)));
+                let ok = match &r {
+                    Ok(Value::Number(x)) if x.is_f64() => num::accurate(x.as_f64().unwrap(), want),
+                    _ => false,
+                };
+                if ok {
+                    rep.count("huge-literal:ok");
+                } else {
+                    rep.violation(
+                        "huge-literal",
+                        format!("C05:huge-compensated-literal:form{}", form),
+                        format!("a {}-byte literal ({}) denoting exactly {} read from {} as {:?}", lit.len(), if form == 0 { "125 followed by n zeros, e-(n+1)" } else { "0.<n zeros>125 e(n+2)" }, want, src, r.as_ref().map(|v| format!("{:?}", v)).map_err(|e| e.to_string())),
+                        json!({"n": n, "form": form, "neg": neg}),
+                    );
+                    return;
                 }
             }
         }),
